@@ -91,15 +91,21 @@ type handle struct {
 }
 
 type srcState struct {
-	idx    int
-	spec   SourceSpec
-	wa     dials.WatchArgs
-	typ    *dials.Type
-	blank  *sourcewrap.Blank
-	src    dials.Source
-	handed []handed
-	doneAt int
-	subs   map[string]*subState // reporter client -> what it has submitted
+	idx     int
+	spec    SourceSpec
+	wa      dials.WatchArgs
+	typ     *dials.Type
+	blank   *sourcewrap.Blank
+	src     dials.Source
+	handed  []handed
+	doneAt  int
+	subs    map[string]*subState // reporter client -> what it has submitted
+	lastVal map[string]lastValue
+}
+
+type lastValue struct {
+	v  reflect.Value
+	id uint64
 }
 
 // subState: the last part a client surely delivered to the monitor, and the
@@ -165,6 +171,7 @@ type Run struct {
 	defaultsScribbled bool
 	file              *fileState
 	reads             []simrt.ReadRecord
+	post              []func(*Result) // work to do on the result after the bubble has been left
 
 	viol      []Violation
 	probes    map[string]int
@@ -435,7 +442,23 @@ func (r *Run) reporter(c *ClientSpec) {
 		case "sleep":
 			simrt.Sleep(time.Duration(op.D))
 		case "report", "breport":
+			if op.Str == "again" {
+				// resolved at run time: the part this client submitted last, else the initial one
+				op = &Op{K: op.K, Ctx: op.Ctx, D: op.D, Str: op.Str, Part: st.spec.Init}
+				if ss := st.subs[c.Name]; ss != nil && ss.has {
+					op.Part = r.parts[ss.sure]
+				}
+				if op.Part == nil || op.Part.BadIface {
+					continue
+				}
+				r.probe("same-value-reported-again")
+			}
 			v := buildValue(st.typ.Type(), op.Part, st.idx)
+			if lv, ok := st.lastVal[c.Name]; ok && op.Str == "again" && r.sc.Prop == "C02" && lv.id == op.Part.ID && r.sim.Step()%2 == 0 {
+				v = lv.v // the very same reflect.Value once more
+				r.probe("same-reflect-value-reported-twice")
+			}
+			st.lastVal[c.Name] = lastValue{v, op.Part.ID}
 			rec := r.begin(c, i, op)
 			r.hand(st, v, op.K)
 			ctx, cancel := r.opCtx(op, rec)
@@ -725,7 +748,7 @@ func newRun(sc *Scenario) *Run {
 func (r *Run) buildSources() []dials.Source {
 	var out []dials.Source
 	for i := range r.sc.Sources {
-		st := &srcState{idx: i, spec: r.sc.Sources[i], subs: map[string]*subState{}}
+		st := &srcState{idx: i, spec: r.sc.Sources[i], subs: map[string]*subState{}, lastVal: map[string]lastValue{}}
 		r.srcs = append(r.srcs, st)
 		switch st.spec.Kind {
 		case "static":
